@@ -26,6 +26,46 @@ type guard struct {
 	rw   bool
 	wOff string // path of the writer word
 	rOff string // path of the reader count (rw only)
+
+	atomicOnly bool // no mutex in the owner: every access must go through sync/atomic
+}
+
+// zzGuardedIn(&x.field, x, name): like zzGuardedBy, but the mutex is looked up
+// in the owner struct (its first sync.Mutex / sync.RWMutex field), so that the
+// harness does not depend on how the implementation names or chooses its
+// lock. An owner without a mutex must access the location through sync/atomic
+// only.
+func inGuardedIn(e *Exec, s *State, f *Frame, fn *ssa.Function, args []Value, result ssa.Value) (stepResult, bool) {
+	root := args[0].(IfaceV)
+	owner := args[1].(IfaceV)
+	name := args[2].(StrV).C
+	g := guard{name: name, root: root.V.(PtrV)}
+	op := owner.V.(PtrV)
+	st, ok := under(under(owner.T).(*types.Pointer).Elem()).(*types.Struct)
+	if !ok {
+		panic(unsupported("zzGuardedIn: owner is not a pointer to a struct"))
+	}
+	found := false
+	for i := 0; i < st.NumFields() && !found; i++ {
+		ft := st.Field(i).Type()
+		switch ft.String() {
+		case "sync.RWMutex":
+			g.rw = true
+			g.mu = PtrV{op.Obj, pathAppend(op.Path, i)}
+			g.wOff = fieldPathByName(ft, "w", "state")
+			g.rOff = fieldPathByName(ft, "readerCount", "v")
+			found = true
+		case "sync.Mutex":
+			g.mu = PtrV{op.Obj, pathAppend(op.Path, i)}
+			g.wOff = fieldPathByName(ft, "state")
+			found = true
+		}
+	}
+	if !found {
+		g.atomicOnly = true
+	}
+	s.guards = append(append([]guard(nil), s.guards...), g)
+	return e.ret(f, result, TupleV{})
 }
 
 func inGuardedBy(e *Exec, s *State, f *Frame, fn *ssa.Function, args []Value, result ssa.Value) (stepResult, bool) {
@@ -112,9 +152,12 @@ func (e *Exec) guardAccess(s *State, f *Frame, obj ObjID, p *PtrV, write bool) {
 		if !hit {
 			continue
 		}
-		held := e.loadInt(s, sub(g.mu, g.wOff)) != 0
-		if !held && g.rw && !write {
-			held = e.loadInt(s, sub(g.mu, g.rOff)) > 0
+		held := false
+		if !g.atomicOnly {
+			held = e.loadInt(s, sub(g.mu, g.wOff)) != 0
+			if !held && g.rw && !write {
+				held = e.loadInt(s, sub(g.mu, g.rOff)) > 0
+			}
 		}
 		kind := "read"
 		if write {
@@ -135,7 +178,11 @@ func (e *Exec) guardAccess(s *State, f *Frame, obj ObjID, p *PtrV, write bool) {
 			e.h.ObligationIDs[id]++
 			continue
 		}
-		e.h.obligationAt(e, s, False, id, "lock-discipline", kind+" of "+g.name+" without holding its mutex at "+e.where(s)+" in "+f.fn.String())
+		how := "without holding its mutex"
+		if g.atomicOnly {
+			how = "not through sync/atomic (its owner has no mutex)"
+		}
+		e.h.obligationAt(e, s, False, id, "lock-discipline", kind+" of "+g.name+" "+how+" at "+e.where(s)+" in "+f.fn.String())
 	}
 }
 
